@@ -27,7 +27,7 @@ type JKV struct {
 	V JV
 }
 
-func jNull() JV         { return JV{K: 'z'} }
+func jNull() JV { return JV{K: 'z'} }
 func jBool(b bool) JV {
 	if b {
 		return JV{K: 't'}
